@@ -68,6 +68,14 @@ RULE = ("1-d structured: model families (HEM, Merton, VG, CGMY in all five activ
         "simulation schemes as the shipped families (the first six cases of every run are fixed combinations with sigma > 0); such models "
         "are also margins of the copula chains (finite variation: 30% of the copula cases, any declared representation; scripted "
         "variance matrix: margins with sigma > 0 and infinite variation in the same margin). "
+        "Degenerate but supported geometry (hand-built through the public CTMCGrid constructor, uniform or non-uniform steps, 0..1 "
+        "refinements): ONE-SIDED state grids - the origin is the first point (only upward jumps) or, the mirror case, the last point, so "
+        "that a truncation bound is exactly 0.0 - and grids with a single state on one side of the origin, for every shipped family "
+        "(all CGMY branches) and the exact piecewise-constant density x every admissible declared representation (ZERO / TILDE / ONEONE "
+        "/ CENTER / as built) x identity / log process x {INVERSION, ALIAS, BINARYSEARCHTREEADAPTED1D, BINARYSEARCHTREE}, judged by the same "
+        "mean / drift / coefficient oracles against the density of the caller's own measure restricted to the grid span (one-sided grids: "
+        "oracle only, the Lean model describes grids with states on both sides; the intensity of jumps must be a finite number; every "
+        "simulated path has a wall-clock limit of 10 s - a sampler that never returns is an oracle failure, not a hang). "
         "non-trivial = chain built and initialised on a well-formed grid with >= 5 points; distinct = distinct (model, "
         "parameters, representation, grid arguments, refinements, method)")
 NOT_PROVED = [
@@ -78,6 +86,9 @@ NOT_PROVED = [
     "`model.drift()` of the exponential models (r - d + omega, omega from the Lévy exponent) is an input (C10)",
     "vol_adjustment_ij's nquad (copula small-jump covariances) is not modelled; only the combination adj·adjᵀ + σ² vs adj + σ² is",
     "the variance statement for finite variation is `variance_finite_variation` (gap <= central second moment + weighted oscillation)",
+    "one-sided state grids (origin = first / last point of the axis): oracle only (mean, eqDiff, simulation schemes, finite intensity); "
+    "Drift.lean's chain is stated for an origin with states on both sides, so the tie is not evaluated there; the variance-gap statement "
+    "is not evaluated there either (no central cell with neighbours -h, +h)",
     "float rounding of sums (compared at 2^-40 relative to the cancellation-aware scale; oracle 1e-9)",
     "simulation schemes: oracle only (coefficient / matrix recovered from the simulated diffusion component, drift from "
     "process.deterministic_path); the law of the variates, of the jump times and of the sampled states is not C04's subject (C02, C12, "
@@ -96,14 +107,16 @@ ASSUMPTIONS = [
     "never called although a diffusion component is produced); for a d-dimensional chain a flat draw of d*n variates is read as the "
     "C-ordered (d, n) array (coordinate-major), an array draw as (..., d, n)",
 ]
-TRUSTED = ["scipy.integrate.quad (oracle only)", "scipy.special functions inside the families' closed forms (C09)",
+TRUSTED = ["SIGALRM-based limit of 10 s per simulated path (the harness's own wall-clock alarm is saved and put back)",
+           "scipy.integrate.quad (oracle only)", "scipy.special functions inside the families' closed forms (C09)",
            "replacement of numpy.random.normal while a scheme simulates a path (prescribed variates)"]
 
 warnings.filterwarnings("ignore", category=scipy.linalg.LinAlgWarning)
 warnings.filterwarnings("ignore")
 
 MEAN_REL = 1e-9
-METHODS = {"INVERSION": SamplingMethod.INVERSION, "BINARYSEARCHTREEADAPTED1D": SamplingMethod.BINARYSEARCHTREEADAPTED1D}
+METHODS = {"INVERSION": SamplingMethod.INVERSION, "BINARYSEARCHTREEADAPTED1D": SamplingMethod.BINARYSEARCHTREEADAPTED1D,
+           "ALIAS": SamplingMethod.ALIAS, "BINARYSEARCHTREE": SamplingMethod.BINARYSEARCHTREE}     # the last two: degenerate-geometry stream
 REPS = {"ONEONE": LR.ONEONE, "TILDE": LR.TILDE, "CENTER": LR.CENTER, "ZERO": LR.ZERO}
 MAXDEV = {"mean": 0.0, "eqdiff": 0.0, "var_ratio": 0.0, "margin_indep": 0.0, "scheme_coef": 0.0, "scheme_drift": 0.0}
 
@@ -283,6 +296,41 @@ class Normals:
         return loc + scale * vals
 
 
+class SimulationTimeout(Exception):
+    pass
+
+
+class time_limit:
+    """wall-clock limit for one simulated path (about 16 jumps expected: milliseconds).  A chain whose sampler never returns (seen on a
+    one-sided grid when the intensity of jumps and the rates of the states disagree) is a failure of the simulated approximation, not
+    a hang of the check.  SIGALRM is shared with the harness's own wall-clock limit: its handler and remaining time are put back."""
+
+    def __init__(self, seconds):
+        self.seconds = seconds
+
+    def __enter__(self):
+        import signal, time
+        self.signal, self.t0 = signal, time.time()
+        self.usable = hasattr(signal, "SIGALRM")
+        if self.usable:
+            def fire(signum, frame):
+                raise SimulationTimeout()
+            self.remaining = signal.alarm(0)
+            self.old = signal.signal(signal.SIGALRM, fire)
+            signal.alarm(self.seconds)
+        return self
+
+    def __exit__(self, *exc):
+        if self.usable:
+            import time
+            self.signal.alarm(0)
+            self.signal.signal(self.signal.SIGALRM, self.old)
+            if self.remaining:
+                self.signal.alarm(max(1, self.remaining - int(time.time() - self.t0)))     # whole seconds: no drift over thousands of paths
+        return False
+
+
+SIMULATION_LIMIT = 10                     # seconds for one path
 SCHEME_C = [1.0, -2.0, 0.5, 1.5]          # the value of the prescribed variates of the coordinate under observation
 SCHEME_NP_SEED = 20240404                 # Poisson counts / jump times / states of the scheme runs (replayable)
 
@@ -333,9 +381,14 @@ def run_scheme(mc, sch, dim, initialised_with=None):
         rows = [0.0] * dim
         rows[k] = c
         np.random.seed(SCHEME_NP_SEED + k)
-        with Normals(rows) as nz:
-            mc.pre_computation(1, prod)
-            path = mc.simulate_one_path()
+        try:
+            with time_limit(SIMULATION_LIMIT), Normals(rows) as nz:
+                mc.pre_computation(1, prod)
+                path = mc.simulate_one_path()
+        except SimulationTimeout:
+            res["problem"] = (f"simulate_one_path did not return within {SIMULATION_LIMIT} s (maturity {sch['T']}, intensity of jumps "
+                              f"{float(mc.intensity_of_jumps)!r}): the approximation cannot be simulated")
+            return res
         times = np.asarray(path.times(), dtype=float)
         diff = np.asarray(path.diffusion_path)
         if np.iscomplexobj(diff) and float(np.max(np.abs(diff.imag))) > 0:
@@ -479,6 +532,15 @@ def chain_probe(ctx, d, cls, model, rep, g, method_name, corr=True, density=None
                                                "quadrature_of_(x-h(x))nu_on_truncated_support": I, "expected_mean": expected,
                                                "relative_deviation": dev, "finite_variation": fv, "truncation": [ax[0], ax[-1]]}, cls=cls)
         return
+    edge = o == 0 or o == n - 1                       # one-sided grid: the origin is the first / the last state
+    if edge:
+        ctx.branches[f"c04.chain1d:one_sided:{'first' if o == 0 else 'last'}:{rep.name}:{'fv' if fv else 'iv'}"] += 1
+        lam = float(mc.intensity_of_jumps)
+        if not (math.isfinite(lam) and lam >= 0):
+            # the approximation is simulated with this rate: a chain that cannot be simulated has no mean per unit time
+            ctx.fail("oracle", "c04.chain.nonfinite", d, {"what": "intensity of jumps of the chain on a one-sided grid is not a finite number "
+                     "(the mean identity itself holds on this input)", "intensity_of_jumps": lam, "truncation": [ax[0], ax[-1]]}, cls=cls)
+            return
     # ---- S: small jumps -> Brownian motion iff infinite variation
     ca, cb = max(-h / 2, -1.0, ax[0]), min(h / 2, 1.0, ax[-1])
     f2 = lambda x: x * x * dens(x)
@@ -498,7 +560,7 @@ def chain_probe(ctx, d, cls, model, rep, g, method_name, corr=True, density=None
     # ---- S: the same two statements on what each simulation scheme of the live chain actually applies
     schemes_1d(ctx, d, cls, mc, fv, sigma, 0.0 if fv else central2, expected - jump_mean, scale)
     # ---- S: variance gap (neighbours of 0 are -h, +h: the central interval is the origin's cell)
-    if math.isclose(ax[o - 1], -h, rel_tol=1e-12) and math.isclose(ax[o + 1], h, rel_tol=1e-12) and h <= 2 and lo[o] < 0 < hi[o]:
+    if not edge and math.isclose(ax[o - 1], -h, rel_tol=1e-12) and math.isclose(ax[o + 1], h, rel_tol=1e-12) and h <= 2 and lo[o] < 0 < hi[o]:
         out2 = Q(f2, ax[0], lo[o]) + Q(f2, hi[o], ax[-1]) if exact_second is None else exact_second(ax[0], lo[o]) + exact_second(hi[o], ax[-1])
         if central2 is None:
             central2 = (Q(f2, lo[o], 0.0) + Q(f2, 0.0, hi[o])) if exact_second is None else exact_second(lo[o], hi[o])
@@ -515,7 +577,7 @@ def chain_probe(ctx, d, cls, model, rep, g, method_name, corr=True, density=None
                                                      "finite_variation": fv}, cls=cls)
             return
         ctx.branches["c04.variance_gap_checked"] += 1
-    if not corr:
+    if not corr or edge:                              # the model (Drift.lean) describes grids with states on both sides of the origin
         return
     # ---- C: the model, fed the untruncated measure's own integrals at the intervals it asks for
     bad = nonfinite(axis=ax, h=h, sigma=sigma, model_drift=mdrift, rates=q, process_drift=drift, a_tilde=a_tilde)
@@ -782,7 +844,7 @@ def synthetic_case(rng):
     heights = [rng.choice([0, 1, 2, 3, 5, 8]) / 4 for _ in range(len(kn) - 1)]
     return dict(stream="synthetic", axis=axis, o=n_left, h=h, knots=[float(x) for x in kn], heights=heights, k=rng.randint(0, 2),
                 a=rng.randint(-16, 16) / 8, sigma=rng.choice([0.0, 0.25, 0.5]), rep=rng.choice(["ZERO", "ONEONE", "TILDE", "CENTER"]),
-                method=rng.choice(list(METHODS)))
+                method=rng.choice(["INVERSION", "BINARYSEARCHTREEADAPTED1D"]))
 
 
 def synthetic_probe(ctx, d, corr=True):
@@ -795,12 +857,98 @@ def synthetic_probe(ctx, d, corr=True):
     for _ in range(d["k"]):
         g.refine()
     half = Fraction(d["h"]) / 2 ** (d["k"] + 1)
-    if tm._exact(d["axis"][0], -half, 0) + tm._exact(half, d["axis"][-1], 0) == 0:
+    E0 = lambda a, b: tm._exact(a, b, 0) if a < b else 0
+    if E0(d["axis"][0], -half) + E0(half, d["axis"][-1]) == 0:
         ctx.branches["c04.synthetic:zero_intensity_skipped"] += 1
         return
     cls = dict(stream="synthetic", kind="synthetic", family="table", dimension=1)
+    if d["o"] in (0, len(d["axis"]) - 1):
+        cls["origin"] = "first" if d["o"] == 0 else "last"
     guarded(ctx, d, cls, chain_probe, ctx, d, cls, model, REPS[d["rep"]], g, d["method"], corr=corr, density=tm,
             exact_second=lambda a, b: float(tm._exact(a, b, 2)), exact_first=lambda a, b: float(tm._exact(a, b, 1)))
+
+
+# ------------------------------------------------------------------------------------------------- degenerate geometry
+def ybranch(family, params):
+    if family != "cgmy":
+        return None
+    y = params.get("y", 0.5)
+    return "y<=0" if y <= 0 else ("0<y<1" if y < 1 else "y>=1")
+
+
+DEGENERATE_ORIGINS = ["first", "second", "first", "penultimate", "first", "last"]
+
+
+def degenerate_case(rng, i):
+    """degenerate but supported geometry, hand-built through the public CTMCGrid constructor: a ONE-SIDED state grid (the origin is the
+    first point - only upward jumps - or, the mirror case, the last point: a truncation bound is then exactly 0.0) or a single state on
+    one side of the origin; uniform or non-uniform steps; every family (and the exact piecewise-constant density) x every admissible
+    declared representation x identity / log process x four sampling methods"""
+    origin = DEGENERATE_ORIGINS[i % len(DEGENERATE_ORIGINS)]
+    h = rng.choice([0.2, 0.1, 0.05]) if i % 5 else rng.choice([1.0, 0.5, 0.25])
+    m = rng.randint(3, 12)
+    if rng.random() < 0.5:
+        side = [h * (j + 1) for j in range(m)]
+    else:
+        side = [float(x) for x in np.cumsum([h] + [h * rng.randint(4, 32) / 16 for _ in range(m - 1)])]
+    other = {"first": [], "last": [], "second": [h], "penultimate": [h]}[origin]
+    if origin in ("first", "second"):
+        axis, o = [-x for x in other][::-1] + [0.0] + side, len(other)
+    else:
+        axis, o = [-x for x in side][::-1] + [0.0] + other, len(side)
+    method = ["INVERSION", "ALIAS", "BINARYSEARCHTREEADAPTED1D", "BINARYSEARCHTREE"][(i // 2) % 4]
+    if i % 5 == 0:
+        span = max(-axis[0], axis[-1])
+        kn = sorted({round(rng.randint(-64, 64) / 16 * (span / 4 if rng.random() < 0.5 else span / 2) * 64) / 64 for _ in range(rng.randint(3, 9))})
+        if len(kn) < 2:
+            kn = [-span, span]
+        return dict(stream="synthetic", axis=axis, o=o, h=h, knots=[float(x) for x in kn],
+                    heights=[rng.choice([0, 1, 2, 3, 5, 8]) / 4 for _ in range(len(kn) - 1)], k=rng.randint(0, 1), a=rng.randint(-16, 16) / 8,
+                    sigma=rng.choice([0.0, 0.25, 0.5]), rep=rng.choice(["ZERO", "ONEONE", "TILDE", "CENTER"]), method=method)
+    fam = zoo.FAMILIES[(i // len(DEGENERATE_ORIGINS)) % len(zoo.FAMILIES)] if rng.random() < 0.7 else rng.choice(zoo.FAMILIES)
+    params = zoo.draw_params(rng, fam)
+    reps = ["ZERO", "TILDE", "ONEONE", "CENTER", "AS_BUILT"]
+    return dict(stream="onesided", family=fam, params=params, exp=rng.random() < 0.4, rep=reps[(i + i // 7) % len(reps)], axis=axis, o=o, h=h,
+                k=rng.randint(0, 1), method=method, origin=origin)
+
+
+def degenerate_probe(ctx, d, corr=True):
+    if d["stream"] == "synthetic":
+        return synthetic_probe(ctx, d, corr=corr)
+    fam, params = d["family"], d["params"]
+    model = zoo.make_exp(fam, params) if d["exp"] else zoo.make_levy(fam, params)
+    rep_name = d["rep"]
+    if rep_name == "ZERO" and not model.jump_of_finite_variation():
+        rep_name = "TILDE"
+    rep = None
+    if rep_name != "AS_BUILT":
+        rep = REPS[rep_name]
+        model.levy_triplet.set_representation(rep)
+    if not math.isfinite(float(model.levy_triplet.a)):
+        ctx.branches[f"c04.declared_a_nonfinite:{fam}:{rep_name}"] += 1
+        return
+    n = len(d["axis"])
+    origin = {0: "first", 1: "second", n - 2: "penultimate", n - 1: "last"}.get(d["o"], "interior")
+    cls = dict(stream="onesided", kind="onesided", family=fam, dimension=1, origin=origin, ybranch=ybranch(fam, params),
+               infinite_activity=not bool(model.levy_triplet.nu.jump_of_finite_activity()))
+
+    def go():
+        g = zoo.CTMCGrid(h=d["h"], origin_coordinate=d["o"], axes=[np.array(d["axis"], dtype=float)])
+        for _ in range(d["k"]):
+            g.refine()
+        ax = [float(x) for x in g.axes[0]]
+        oo = int(g.origin_coordinate.value)
+        if not (0 <= oo < len(ax) and ax[oo] == 0.0 and all(a < b for a, b in zip(ax, ax[1:]))):
+            ctx.fail("oracle", "c04.chain.nonfinite", d, {"what": "after refine() the origin coordinate of the hand-built grid does not point at 0 / "
+                     "the axis is not increasing", "origin_coordinate": oo, "axis": ax[:6]}, cls=cls)
+            return
+        chain_probe(ctx, d, cls, model, rep, g, d["method"], corr=corr)
+    guarded(ctx, d, cls, go)
+
+
+def run_degenerate(ctx, n, corr=True):
+    for i in range(n):
+        degenerate_probe(ctx, degenerate_case(ctx.rng, i), corr=corr)
 
 
 # ------------------------------------------------------------------------------------------------- copula margins
@@ -1309,6 +1457,7 @@ def run(ctx, corr=True):
         d = scripted_matrix_case(rng)
         guarded(ctx, d, dict(stream="variance_matrix_scripted", dimension=d["dim"]), scripted_matrix_probe, ctx, d, corr=corr)
     run_user(ctx, ctx.n(24, 400), corr=corr)
+    run_degenerate(ctx, ctx.n(60, 900), corr=corr)
     ctx.notes.append(f"largest deviations: mean oracle {MAXDEV['mean']:.2e} (tolerance {MEAN_REL}), eqDiff² vs quadrature {MAXDEV['eqdiff']:.2e} "
                      f"(1e-8), variance gap / bound {MAXDEV['var_ratio']:.3f} (<= 1), independent-copula margin mean {MAXDEV['margin_indep']:.2e}; simulation schemes: coefficient² applied vs oracle "
                      f"{MAXDEV['scheme_coef']:.2e} (1e-8), drift applied vs oracle {MAXDEV['scheme_drift']:.2e} ({MEAN_REL})")
@@ -1324,6 +1473,7 @@ def search(ctx):
         d = scripted_matrix_case(ctx.rng)
         guarded(ctx, d, dict(stream="variance_matrix_scripted", dimension=d["dim"]), scripted_matrix_probe, ctx, d, corr=False)
     run_user(ctx, ctx.n(40, 300), corr=False)
+    run_degenerate(ctx, ctx.n(120, 600), corr=False)
 
 
 def replay(ctx, rec):
@@ -1342,6 +1492,8 @@ def replay(ctx, rec):
             g.refine()
         cls = rec.get("cls") or dict(stream="1d", kind=d["grid"]["kind"], family=d["family"], dimension=1)
         guarded(ctx, d, cls, chain_probe, ctx, d, cls, model, rep, g, d["method"])
+    elif s == "onesided":
+        degenerate_probe(ctx, d)
     elif s == "user":
         user_probe(ctx, dict(d, parts=[tuple(m) for m in d["parts"]]))
     elif s == "copula":
